@@ -40,27 +40,60 @@ def find_lazy_caches(ctx):
             selfn = fn.node.args.args[0].arg
             for n in ast.walk(fn.node):
                 if isinstance(n, ast.If):
-                    f = _is_none_test(n.test, selfn)
-                    if f and any(_stores_field(b, selfn, f) for b in ast.walk(n)):
+                    f, pol = cache_test(n.test, selfn)
+                    # miss form: the fill is inside the `if`; hit form (`if self.F is not None: return self.F`): after it
+                    scope = ast.walk(n) if pol == "miss" else ast.walk(fn.node)
+                    if f and any(_stores_field(b, selfn, f) and not _is_reset(b) for b in scope):
                         mangled = f"_{cls}{f}" if f.startswith("__") and not f.endswith("__") else f
                         out.append((cls, mangled, f, fn))
     return out
 
 
-def _is_none_test(test, selfn):
-    """field name F when the test is the cache-miss test of a lazily filled field:
-         self.F is None            (single cached value)
-         key not in self.F         (per-instance memo dict)"""
-    if isinstance(test, ast.Compare) and len(test.ops) == 1 and isinstance(test.ops[0], ast.Is) \
+def cache_test(test, selfn):
+    """(field name F, polarity) when the test is the cache test of a lazily filled field:
+         self.F is None      / key not in self.F     -> 'miss'  (body fills)
+         self.F is not None  / key in self.F         -> 'hit'   (body returns the cached value, the rest fills)
+       `not <test>` flips the polarity"""
+    if isinstance(test, ast.UnaryOp) and isinstance(test.op, ast.Not):
+        f, pol = cache_test(test.operand, selfn)
+        return (f, {"miss": "hit", "hit": "miss"}[pol]) if f else (None, None)
+    if isinstance(test, ast.Compare) and len(test.ops) == 1 and isinstance(test.ops[0], (ast.Is, ast.IsNot)) \
             and isinstance(test.comparators[0], ast.Constant) and test.comparators[0].value is None \
             and isinstance(test.left, ast.Attribute) and isinstance(test.left.value, ast.Name) \
             and test.left.value.id == selfn:
-        return test.left.attr
-    if isinstance(test, ast.Compare) and len(test.ops) == 1 and isinstance(test.ops[0], ast.NotIn):
+        return test.left.attr, ("miss" if isinstance(test.ops[0], ast.Is) else "hit")
+    if isinstance(test, ast.Compare) and len(test.ops) == 1 and isinstance(test.ops[0], (ast.NotIn, ast.In)):
         c = test.comparators[0]
         if isinstance(c, ast.Attribute) and isinstance(c.value, ast.Name) and c.value.id == selfn:
-            return c.attr
-    return None
+            return c.attr, ("miss" if isinstance(test.ops[0], ast.NotIn) else "hit")
+    return None, None
+
+
+def _is_none_test(test, selfn):
+    f, pol = cache_test(test, selfn)
+    return f if pol == "miss" else None
+
+
+def _is_reset(n):
+    return isinstance(n, ast.Assign) and isinstance(n.value, ast.Constant) and n.value.value is None
+
+
+def max_fill_stores(body, selfn, f):
+    """largest number of non-reset stores to self.F along one path through `body` (a store in a loop counts twice)"""
+    total = 0
+    for st in body:
+        if isinstance(st, ast.If):
+            total += max(max_fill_stores(st.body, selfn, f), max_fill_stores(st.orelse, selfn, f))
+        elif isinstance(st, (ast.For, ast.While)):
+            total += 2 * max_fill_stores(st.body, selfn, f) + max_fill_stores(st.orelse, selfn, f)
+        elif isinstance(st, ast.Try):
+            total += max_fill_stores(st.body, selfn, f) + max([max_fill_stores(h.body, selfn, f) for h in st.handlers] + [0]) \
+                + max_fill_stores(st.orelse, selfn, f) + max_fill_stores(st.finalbody, selfn, f)
+        elif isinstance(st, ast.With):
+            total += max_fill_stores(st.body, selfn, f)
+        elif _stores_field(st, selfn, f) and not _is_reset(st):
+            total += 2 if isinstance(st, ast.AugAssign) else 1
+    return total
 
 
 def _stores_field(n, selfn, f):
@@ -89,10 +122,15 @@ def filler_is_isometry_invariant(ctx, filler, fsrc):
     selfn = filler.params[0]
     inf = ctx.typer.of(filler)
     for n in ast.walk(filler.node):
-        if isinstance(n, ast.If) and _is_none_test(n.test, selfn) == fsrc:
+        if isinstance(n, ast.If) and cache_test(n.test, selfn)[0] == fsrc:
             called = set()
-            for b in n.body:
-                for x in ast.walk(b):
+            if cache_test(n.test, selfn)[1] == "miss":
+                region = n.body
+            else:       # hit form: everything of the function but the cache-hit branch computes the value
+                skip = {id(x) for b in n.body for x in ast.walk(b)} | {id(x) for x in ast.walk(n.test)}
+                region = [x for x in ast.walk(filler.node) if id(x) not in skip]
+            for b in region:
+                for x in (ast.walk(b) if region is n.body else [b]):
                     for t in inf.targets(x):
                         called.add(t.qname)
             return bool(called) and called <= ISOMETRY_INVARIANT
@@ -268,12 +306,11 @@ class CacheCoherence:
         selfn = fn.params[0]
         if isinstance(st, ast.If):
             states = self.apply_simple(fn, st.test, states)
-            f = _is_none_test(st.test, selfn)
+            f, pol = cache_test(st.test, selfn)
             if f == self.Fsrc:
-                a = self.block(fn, st.body, {(N, False)} if states else set(), exits)
-                b = self.block(fn, st.orelse, {s for s in states if s[0] == Mb}, exits)
-                if not st.orelse:
-                    b = {s for s in states if s[0] == Mb}
+                miss, hit = ({(N, False)} if states else set()), {s for s in states if s[0] == Mb}
+                a = self.block(fn, st.body, miss if pol == "miss" else hit, exits)
+                b = self.block(fn, st.orelse, hit if pol == "miss" else miss, exits)
                 return a | b
             a = self.block(fn, st.body, set(states), exits)
             b = self.block(fn, st.orelse, set(states), exits)
